@@ -54,7 +54,7 @@ bool vh_enum(const vh::Opts& o, uint64_t k, vh::Case& out) {
 rc::Gen<vh::Case> vh_gen(const vh::Opts&) {
   using namespace rc;
   return gen::apply([](int arch, int idx, int ff, std::vector<int> ch) { vh::Case c; c.cfg = {arch, idx, ff}; vh::Op op; for (int v : ch) op.push_back(v); c.ops.push_back(op); return c; },
-    vh::irange<int>(0, 2), vh::irange<int>(0, 1 << 20), vh::irange<int>(0, 5), gen::container<std::vector<int>>(size_t(kChoices), vh::irange<int>(0, 0x3fffffff)));
+    vh::irange<int>(0, 5), vh::irange<int>(0, 1 << 20), vh::irange<int>(0, 5), gen::container<std::vector<int>>(size_t(kChoices), vh::irange<int>(0, 0x3fffffff)));
 }
 
 static const FormatFlags kFlagSets[6] = {
@@ -385,8 +385,216 @@ static void run_a64(const vh::Case& c, vh::Ctx& ctx) {
   if (interesting) { ctx.nontrivial(); if (ctx.want_sample()) ctx.sample(desc + " | log: " + logline); }
 }
 
+
+// ---- label operands (x86 and a64) ---------------------------------------------------------------------------------------------
+// Instructions that reference anonymous / named / local / named-anonymous labels, bound or not yet bound, with addends and trailing
+// immediates. Oracle: the label token printed resolves (through the CodeHolder's documented naming scheme: "L<id>", "<name>",
+// "<parent>.<name>", "L<id>@<name>") to exactly the label given; size keyword, addend, registers and immediates are parsed back;
+// the machine-code column equals the bytes appended, where only the bytes of the displacement field of a reference that is still
+// pending may be printed as "..".
+static int64_t resolve_label_text(CodeHolder& code, const std::string& t) {
+  if (t.empty()) return -1;
+  size_t dot = t.find('.');
+  if (dot != std::string::npos) {
+    int64_t parent = resolve_label_text(code, t.substr(0, dot));
+    if (parent < 0) return -1;
+    std::string child = t.substr(dot + 1);
+    uint32_t id = code.label_id_by_name(child.c_str(), child.size(), uint32_t(parent));
+    return id == Globals::kInvalidId ? -1 : int64_t(id);
+  }
+  if (t[0] == 'L' && t.size() > 1 && isdigit((unsigned char)t[1])) {
+    size_t i = 1; uint64_t v = 0; while (i < t.size() && isdigit((unsigned char)t[i])) { v = v * 10 + uint64_t(t[i] - '0'); i++; }
+    if (i == t.size()) return int64_t(v);
+    if (t[i] == '@') {       // named anonymous label: the name after '@' must be that label's name
+      if (!code.is_label_valid(uint32_t(v))) return -1;
+      const LabelEntry& le = code.label_entry_of(uint32_t(v));
+      if (!le.has_name() || std::string(le.name()) != t.substr(i + 1)) return -1;
+      return int64_t(v);
+    }
+    return -1;
+  }
+  uint32_t id = code.label_id_by_name(t.c_str(), t.size());
+  return id == Globals::kInvalidId ? -1 : int64_t(id);
+}
+
+static void run_labels(const vh::Case& c, vh::Ctx& ctx, int archsel) {
+  static const vh::Op empty; const vh::Op& chv = c.ops.empty() ? empty : c.ops[0];
+  xi::Choices ch(chv, 0);
+  FormatFlags ff = kFlagSets[uint64_t(c.cfg[2]) % 6];
+  bool a64 = archsel == 2; int mode = archsel == 1 ? 32 : 64;
+  Arch arch = a64 ? Arch::kAArch64 : mode == 64 ? Arch::kX64 : Arch::kX86;
+  CodeHolder code; code.init(Environment(arch));
+  x86::Assembler xa; a64::Assembler ra;
+  BaseAssembler* as = a64 ? static_cast<BaseAssembler*>(&ra) : static_cast<BaseAssembler*>(&xa);
+  code.attach(as);
+  StringLogger lg; lg.set_flags(ff); code.set_logger(&lg);
+
+  // label population: ids are spread so that "L<id>" has one and two digits
+  int filler = ch.pick(13);
+  for (int i = 0; i < filler; i++) (void)as->new_label();
+  static const char* gnames[] = {"fn_main", "loop_head", "L7", "x", "data.end", "_start$1"};      // "L7": a name that looks like an anonymous label
+  static const char* lnames[] = {"loc", "1", "exit", "L0"};
+  int lk = ch.pick(5);
+  Label target; std::string kind;
+  if (lk == 0) { target = as->new_label(); kind = "anonymous"; }
+  else if (lk == 1) { const char* n = gnames[ch.pick(6)]; if (strchr(n, '.') || (n[0] == 'L' && isdigit((unsigned char)n[1]))) ctx.cls("label_name_ambiguous_by_construction"); target = as->new_named_label(n); kind = std::string("global '") + n + "'"; }
+  else if (lk == 2) { Label parent = as->new_named_label(gnames[ch.pick(2)]); target = as->new_named_label(lnames[ch.pick(3)], SIZE_MAX, LabelType::kLocal, parent.id()); kind = "local of named"; }
+  else if (lk == 3) { target = as->new_named_label(lnames[ch.pick(3)], SIZE_MAX, LabelType::kAnonymous); kind = "named anonymous"; }
+  else { Label parent = as->new_label(); target = as->new_named_label(lnames[ch.pick(3)], SIZE_MAX, LabelType::kLocal, parent.id()); kind = "local of anonymous"; }
+  if (!target.is_valid()) { ctx.cls("label_creation_rejected"); return; }
+  // names containing '.' or of the form L<digits> make the text ambiguous by construction: the inverse would not be a function; skip those
+  // (they are counted above) - the property can only be judged for names the naming scheme can denote uniquely.
+  {
+    const LabelEntry& le = code.label_entry_of(target.id());
+    if (le.has_name()) { std::string n = le.name(); if (n.find('.') != std::string::npos || (n[0] == 'L' && n.size() > 1 && isdigit((unsigned char)n[1]))) return; }
+    if (le.has_parent()) { const LabelEntry& pe = code.label_entry_of(le.parent_id()); if (pe.has_name()) { std::string n = pe.name(); if (n.find('.') != std::string::npos || (n[0] == 'L' && n.size() > 1 && isdigit((unsigned char)n[1]))) return; } }
+  }
+  bool bound = ch.chance(1, 3);
+  int pre = ch.pick(4), mid = ch.pick(6);
+  auto nops = [&](int n) { for (int i = 0; i < n; i++) { if (a64) ra.nop(); else xa.nop(); } };
+  nops(pre); if (bound) as->bind(target); nops(mid);
+  lg.clear();
+  size_t off0 = as->offset();
+  Error err = Error::kOk;
+  std::string mn; std::vector<std::string> want_ops;       // expected operand descriptions: "L" label, "M:<size>:<addend>" memory, "R:<name>", "I:<value>:<bits>"
+  size_t imm_size = 0, field = 4; bool is_short = false;
+  int64_t addend = 0;
+  static const int64_t addends[] = {0, 0, 4, 8, -4, 100, -1, 0x1000, -128, 127};
+  if (!a64) {
+    int k = ch.pick(12);
+    static const x86::Gp r32[] = {x86::eax, x86::ecx, x86::edx, x86::ebx, x86::esi, x86::edi};
+    static const char* r32n[] = {"eax", "ecx", "edx", "ebx", "esi", "edi"};
+    int ri = ch.pick(6);
+    addend = addends[ch.pick(10)];
+    int64_t imm32s[] = {0x12345678, 1, -1, 0x7FFFFFFF, 200, -129, 0x11223344};
+    int64_t imm8s[] = {5, -1, 0x7F, -128, 1, 0x12};
+    switch (k) {
+      case 0: mn = "jmp"; err = xa.jmp(target); want_ops = {"L"}; break;
+      case 1: { static const char* ccn[] = {"jz", "jnz", "jb", "jge", "jo", "js"}; int cc = ch.pick(6); mn = ccn[cc];
+                err = cc == 0 ? xa.jz(target) : cc == 1 ? xa.jnz(target) : cc == 2 ? xa.jb(target) : cc == 3 ? xa.jge(target) : cc == 4 ? xa.jo(target) : xa.js(target); want_ops = {"L"}; break; }
+      case 2: mn = "call"; err = xa.call(target); want_ops = {"L"}; break;
+      case 3: mn = "jmp"; is_short = true; field = 1; err = xa.short_().jmp(target); want_ops = {"L"}; break;
+      case 4: mn = "jnz"; is_short = true; field = 1; err = xa.short_().jnz(target); want_ops = {"L"}; break;
+      case 5: mn = "lea"; err = xa.lea(r32[ri], x86::ptr(target, int32_t(addend))); want_ops = {std::string("R:") + r32n[ri], "M::" + std::to_string(addend)}; break;
+      case 6: { int64_t v = imm32s[ch.pick(7)]; int op = ch.pick(4); mn = op == 0 ? "mov" : op == 1 ? "cmp" : op == 2 ? "add" : "test";
+                x86::Mem m = x86::dword_ptr(target, int32_t(addend));
+                err = op == 0 ? xa.mov(m, Imm(v)) : op == 1 ? xa.cmp(m, Imm(v)) : op == 2 ? xa.add(m, Imm(v)) : xa.test(m, Imm(v));
+                imm_size = (op == 0 || op == 3) ? 4 : (v >= -128 && v <= 127 ? 1 : 4);
+                want_ops = {"M:dword:" + std::to_string(addend), "I:" + std::to_string(v) + ":32"}; break; }
+      case 7: { int64_t v = imm8s[ch.pick(6)]; int op = ch.pick(3); mn = op == 0 ? "mov" : op == 1 ? "cmp" : "or";
+                x86::Mem m = x86::byte_ptr(target, int32_t(addend));
+                err = op == 0 ? xa.mov(m, Imm(v)) : op == 1 ? xa.cmp(m, Imm(v)) : xa.or_(m, Imm(v));
+                imm_size = 1; want_ops = {"M:byte:" + std::to_string(addend), "I:" + std::to_string(v) + ":8"}; break; }
+      case 8: { int64_t v = ch.chance(1, 2) ? 0x1234 : 7; int op = ch.pick(2); mn = op == 0 ? "mov" : "add";
+                x86::Mem m = x86::word_ptr(target, int32_t(addend));
+                err = op == 0 ? xa.mov(m, Imm(v)) : xa.add(m, Imm(v));
+                imm_size = (op == 0) ? 2 : (v <= 127 ? 1 : 2); want_ops = {"M:word:" + std::to_string(addend), "I:" + std::to_string(v) + ":16"}; break; }
+      case 9: { int64_t v = ch.chance(1, 2) ? 100000 : 3; mn = "imul"; err = xa.imul(r32[ri], x86::dword_ptr(target, int32_t(addend)), Imm(v)); imm_size = v <= 127 ? 1 : 4;
+                want_ops = {std::string("R:") + r32n[ri], "M:dword:" + std::to_string(addend), "I:" + std::to_string(v) + ":32"}; break; }
+      case 10: mn = "mov"; if (ch.chance(1, 2)) { err = xa.mov(r32[ri], x86::dword_ptr(target, int32_t(addend))); want_ops = {std::string("R:") + r32n[ri], "M:dword:" + std::to_string(addend)}; }
+               else { err = xa.mov(x86::dword_ptr(target, int32_t(addend)), r32[ri]); want_ops = {"M:dword:" + std::to_string(addend), std::string("R:") + r32n[ri]}; } break;
+      default: { int64_t v = ch.pick(256); mn = "vpshufd"; err = xa.vpshufd(x86::xmm1, x86::xmmword_ptr(target, int32_t(addend)), Imm(v)); imm_size = 1;
+                 want_ops = {"R:xmm1", "M:xmmword:" + std::to_string(addend), "I:" + std::to_string(v) + ":8"}; break; }
+    }
+  } else {
+    int k = ch.pick(9);
+    switch (k) {
+      case 0: mn = "b"; err = ra.b(target); want_ops = {"L"}; break;
+      case 1: mn = "bl"; err = ra.bl(target); want_ops = {"L"}; break;
+      case 2: mn = ch.chance(1, 2) ? "b.eq" : "b.lt"; err = mn == "b.eq" ? ra.b_eq(target) : ra.b_lt(target); want_ops = {"L"}; break;
+      case 3: mn = "cbz"; err = ra.cbz(a64::x1, target); want_ops = {"R:x1", "L"}; break;
+      case 4: mn = "cbnz"; err = ra.cbnz(a64::w9, target); want_ops = {"R:w9", "L"}; break;
+      case 5: { int bit = ch.pick(32); mn = "tbz"; err = ra.tbz(a64::w2, uint32_t(bit), target); want_ops = {"R:w2", "I:" + std::to_string(bit) + ":8", "L"}; break; }
+      case 6: mn = "adr"; err = ra.adr(a64::x3, target); want_ops = {"R:x3", "L"}; break;
+      case 7: mn = "ldr"; err = ra.ldr(a64::x4, a64::ptr(target)); want_ops = {"R:x4", "M::0"}; break;
+      default: mn = "adrp"; err = ra.adrp(a64::x5, target); want_ops = {"R:x5", "L"}; break;
+    }
+    field = 0;
+  }
+  const char* an = a64 ? "a64" : mode == 64 ? "x64" : "x86";
+  if (err != Error::kOk) { ctx.cls(std::string("label_inst_rejected_") + an); return; }
+  size_t off1 = as->offset();
+  const CodeBuffer& buf = code.text_section()->buffer();
+  std::string logline = trim(std::string(lg.data(), lg.data_size()));
+  std::string desc = std::string(an) + " " + mn + " -> label id " + std::to_string(target.id()) + " (" + kind + (bound ? ", bound" : ", not bound") + "), addend " + std::to_string(addend) + ": log line '" + logline + "'";
+  VH_CHECK(ctx, logline.find('\n') == std::string::npos && !logline.empty(), "label-log-line-count", "%s", desc.c_str());
+  std::string body = logline, mc;
+  if (Support::test(ff, FormatFlags::kMachineCode)) { size_t sc = logline.rfind(';'); VH_CHECK(ctx, sc != std::string::npos, "log-no-machine-code-column", "%s", desc.c_str()); body = trim(logline.substr(0, sc)); mc = trim(logline.substr(sc + 1)); }
+  if (Support::test(ff, FormatFlags::kPositions)) { size_t cp = body.find(": "); if (cp != std::string::npos && cp <= 10) body = trim(body.substr(cp + 2)); }
+  // mnemonic (+ "short")
+  {
+    // "short" denotes the rel8 encoding, which the assembler also selects by itself for a bound label in range: judge it by the opcode
+    if (!a64 && want_ops.size() == 1 && want_ops[0] == "L") {
+      uint8_t op0 = buf.data()[off0];
+      bool enc_short = op0 == 0xEB || (op0 >= 0x70 && op0 <= 0x7F);
+      bool txt_short = body.compare(0, 6, "short ") == 0;
+      if (is_short && !enc_short) ctx.fail_unless_known(std::string("short-option-ignored:") + an, desc + ": short_() requested but opcode is " + hexu(buf.data() + off0, 1));
+      if (enc_short != txt_short) ctx.fail_unless_known(std::string("label-text-short-mismatch:") + an, desc + ": text " + (txt_short ? "says" : "does not say") + " short but the opcode is " + hexu(buf.data() + off0, 1));
+      is_short = txt_short; field = enc_short ? 1 : 4;
+      if (enc_short && !is_short) return;
+    }
+    std::string want_head = (is_short ? std::string("short ") : std::string()) + mn + " ";
+    if (mn == "jge" && body.compare(0, want_head.size(), want_head) != 0) { mn = "jnl"; want_head = (is_short ? std::string("short ") : std::string()) + mn + " "; }      // architectural alias (same opcode 7D / 0F 8D)
+    if (body.compare(0, want_head.size(), want_head) != 0) { ctx.fail_unless_known(std::string("label-text-mnemonic:") + an, desc + ": expected it to start with '" + want_head + "'"); return; }
+    body = body.substr(want_head.size());
+  }
+  std::vector<std::string> got = split_operands(body);
+  if (got.size() != want_ops.size()) { ctx.fail_unless_known(std::string("label-text-operand-count:") + an, desc + ": " + std::to_string(got.size()) + " operands printed, " + std::to_string(want_ops.size()) + " given"); return; }
+  for (size_t i = 0; i < got.size(); i++) {
+    const std::string& w = want_ops[i]; std::string g = got[i];
+    if (w == "L") {
+      int64_t id = resolve_label_text(code, g);
+      if (id != int64_t(target.id())) ctx.fail_unless_known(std::string("label-text-denotes-other-label:") + an, desc + ": operand '" + g + "' denotes label " + std::to_string(id));
+      ctx.cls("label_operand_parsed");
+    } else if (w[0] == 'R') {
+      if (g != w.substr(2)) ctx.fail_unless_known(std::string("label-text-register:") + an, desc + ": operand '" + g + "', expected " + w.substr(2));
+    } else if (w[0] == 'I') {
+      size_t c2 = w.rfind(':'); int64_t v = strtoll(w.substr(2, c2 - 2).c_str(), nullptr, 10); int bits = atoi(w.substr(c2 + 1).c_str());
+      int64_t pv; bool ok = parse_num(g, pv);
+      uint64_t mask = bits >= 64 ? ~uint64_t(0) : ((uint64_t(1) << bits) - 1);
+      if (!ok || ((uint64_t(pv) ^ uint64_t(v)) & mask) != 0) ctx.fail_unless_known(std::string("label-text-immediate:") + an, desc + ": immediate printed as '" + g + "', given " + std::to_string(v));
+    } else {       // M:<size>:<addend>
+      size_t c1 = w.find(':', 2); std::string sz = w.substr(2, c1 - 2); int64_t ad = strtoll(w.substr(c1 + 1).c_str(), nullptr, 10);
+      size_t lb = g.find('['), rb = g.rfind(']');
+      if (lb == std::string::npos || rb == std::string::npos || rb < lb) { ctx.fail_unless_known(std::string("label-text-memory-syntax:") + an, desc + ": operand '" + g + "'"); continue; }
+      std::string pre_t = trim(g.substr(0, lb)), in = g.substr(lb + 1, rb - lb - 1);
+      std::string want_pre = sz.empty() ? "" : sz + " ptr";
+      if (pre_t != want_pre) ctx.fail_unless_known(std::string("label-text-memory-size:") + an, desc + ": operand '" + g + "' has size prefix '" + pre_t + "', expected '" + want_pre + "'");
+      // label [+-] addend : the addend is the last +/- followed only by a number
+      std::string lt = in; int64_t got_ad = 0;
+      size_t pm = in.find_last_of("+-");
+      if (pm != std::string::npos && pm > 0) { int64_t v; if (parse_num(in.substr(pm + 1), v)) { got_ad = in[pm] == '-' ? -v : v; lt = in.substr(0, pm); } }
+      if (lt.compare(0, 4, "rip+") == 0) lt = lt.substr(4);
+      int64_t id = resolve_label_text(code, trim(lt));
+      if (id != int64_t(target.id())) ctx.fail_unless_known(std::string("label-text-denotes-other-label:") + an, desc + ": memory operand '" + g + "' denotes label " + std::to_string(id));
+      if (got_ad != ad) ctx.fail_unless_known(std::string("label-text-addend:") + an, desc + ": memory operand '" + g + "' shows addend " + std::to_string(got_ad) + ", given " + std::to_string(ad));
+      ctx.cls("label_memory_operand_parsed");
+    }
+  }
+  // machine-code column
+  if (Support::test(ff, FormatFlags::kMachineCode)) {
+    size_t n = off1 - off0; const uint8_t* p = buf.data() + off0;
+    bool okc = mc.size() == 2 * n; size_t dotted = 0;
+    if (okc) {
+      size_t f0 = n - imm_size - field, f1 = n - imm_size;
+      for (size_t i = 0; i < n && okc; i++) {
+        std::string pair = mc.substr(2 * i, 2);
+        if (pair == "..") { dotted++; if (a64 || i < f0 || i >= f1 || bound) okc = false; }       // dots only over a pending displacement field
+        else if (pair != hexu(p + i, 1)) okc = false;
+      }
+      if (dotted != 0 && dotted != field) okc = false;
+    }
+    if (!okc) ctx.fail_unless_known(std::string("label-log-machine-code-differs:") + an, desc + ": machine-code column '" + mc + "' but the bytes appended are " + hexu(p, n) + " (displacement field " + std::to_string(field) + " byte(s), immediate " + std::to_string(imm_size) + " byte(s))");
+    ctx.cls(dotted ? "label_machine_code_with_pending_field" : "label_machine_code_plain");
+    if (dotted && imm_size) ctx.cls("label_machine_code_pending_field_then_immediate");
+  }
+  ctx.cls(std::string("labels_") + an); ctx.cls("label_kind_" + std::to_string(lk));
+  ctx.nontrivial(); if (ctx.want_sample()) ctx.sample(desc);
+}
+
 void vh_run(const vh::Case& c, vh::Ctx& ctx) {
   if (c.cfg.size() < 3) return;
-  int arch = int(uint64_t(c.cfg[0]) % 3);
+  int arch = int(uint64_t(c.cfg[0]) % 6);      // 0 x64, 1 x86, 2 a64 (ISA-database forms); 3..5 the same architectures with label operands
+  if (arch >= 3) { run_labels(c, ctx, arch - 3); return; }
   if (arch == 2) run_a64(c, ctx); else run_x86(c, ctx, arch == 0 ? 64 : 32);
 }
